@@ -1,8 +1,12 @@
 package main
 
 import (
+	"bytes"
+	"fmt"
 	"math"
+	"strings"
 
+	"google.golang.org/protobuf/encoding/protowire"
 	"google.golang.org/protobuf/reflect/protoreflect"
 	"google.golang.org/protobuf/types/dynamicpb"
 
@@ -38,7 +42,7 @@ func boundaries(fd protoreflect.FieldDescriptor) []protoreflect.Value {
 		}
 		return out
 	case protoreflect.StringKind:
-		return []protoreflect.Value{V(""), V("a"), V("héllo ✓"), V(string(make([]byte, 127))), V(string(make([]byte, 128))), V("tag: 1\n")}
+		return []protoreflect.Value{V(""), V("a"), V("héllo ✓"), V(string(make([]byte, 127))), V(string(make([]byte, 128))), V("tag: 1\n"), V(strings.Repeat("x", 126)), V(strings.Repeat("é", 64))}
 	case protoreflect.BytesKind:
 		return []protoreflect.Value{V([]byte{}), V([]byte{0}), V([]byte{0xFF, 0x80, 0x00}), V(make([]byte, 127)), V(make([]byte, 128)), V(make([]byte, 300))}
 	}
@@ -85,6 +89,40 @@ func randScalar(r *hx.Rng, fd protoreflect.FieldDescriptor) protoreflect.Value {
 		return V(r.Bytes(r.Intn(12)))
 	}
 	panic("randScalar: " + fd.Kind().String())
+}
+
+// nonZeroValue: a random value that is not the kind's zero (so that every byte of its encoding is emitted)
+func nonZeroValue(r *hx.Rng, fd protoreflect.FieldDescriptor) protoreflect.Value {
+	for i := 0; i < 50; i++ {
+		v := randValue(r, fd, 1)
+		switch fd.Kind() {
+		case protoreflect.MessageKind:
+			return v
+		case protoreflect.StringKind:
+			if v.String() != "" {
+				return v
+			}
+		case protoreflect.BytesKind:
+			if len(v.Bytes()) > 0 {
+				return v
+			}
+		case protoreflect.BoolKind:
+			return protoreflect.ValueOfBool(true)
+		case protoreflect.FloatKind, protoreflect.DoubleKind:
+			if v.Float() != 0 {
+				return v
+			}
+		case protoreflect.EnumKind:
+			if v.Enum() != 0 {
+				return v
+			}
+		default:
+			if fmt.Sprint(v.Interface()) != "0" {
+				return v
+			}
+		}
+	}
+	return randValue(r, fd, 1)
 }
 
 func randMessage(r *hx.Rng, md protoreflect.MessageDescriptor, depth int) *dynamicpb.Message {
@@ -169,6 +207,30 @@ func genValues(r *hx.Rng, md protoreflect.MessageDescriptor) []*dynamicpb.Messag
 					m.Mutable(fd).Map().Set(randScalar(r, fd.MapKey()).MapKey(), randValue(r, fd.MapValue(), 1))
 				}
 			})
+			// entry lengths around the 1|2-byte length-prefix boundary: the ENTRY (key + value) crosses 128 while
+			// neither part does, for every key/value length split the field's kinds allow
+			if fd.MapKey().Kind() == protoreflect.StringKind {
+				for L := 108; L <= 128; L++ {
+					L := L
+					one(func(m *dynamicpb.Message) {
+						m.Mutable(fd).Map().Set(protoreflect.ValueOfString(strings.Repeat("k", L)).MapKey(), nonZeroValue(r, fd.MapValue()))
+					})
+				}
+			}
+			if k := fd.MapValue().Kind(); k == protoreflect.StringKind || k == protoreflect.BytesKind {
+				for L := 108; L <= 128; L++ {
+					L := L
+					one(func(m *dynamicpb.Message) {
+						var v protoreflect.Value
+						if k == protoreflect.StringKind {
+							v = protoreflect.ValueOfString(strings.Repeat("v", L))
+						} else {
+							v = protoreflect.ValueOfBytes(bytes.Repeat([]byte{7}, L))
+						}
+						m.Mutable(fd).Map().Set(nonZeroValue(r, fd.MapKey()).MapKey(), v)
+					})
+				}
+			}
 		case fd.IsList():
 			if fd.Kind() == protoreflect.MessageKind {
 				one(func(m *dynamicpb.Message) {
@@ -215,6 +277,17 @@ func genValues(r *hx.Rng, md protoreflect.MessageDescriptor) []*dynamicpb.Messag
 	}
 	for i := 0; i < n; i++ {
 		out = append(out, randMessage(r, md, 3))
+	}
+	// messages that carry UNKNOWN fields (what Unmarshal retains), at the top level and in nested / list / map /
+	// oneof children: Size, the cached size and Marshal must all count them
+	g := &vgen{r: r}
+	for i := 0; i < n/2+4; i++ {
+		m := randMessage(r, md, 3)
+		if i%2 == 0 {
+			fillRequired(r, m, 4)
+		}
+		addUnknown(g, m, 3, i%3 == 0)
+		out = append(out, m)
 	}
 	// all required fields set (when there are any), so that success paths are exercised too
 	hasReq := false
@@ -268,6 +341,52 @@ func fillRequired(r *hx.Rng, m protoreflect.Message, depth int) {
 			}
 		default:
 			fillRequired(r, v.Message(), depth-1)
+		}
+		return true
+	})
+}
+
+// addUnknown gives m (always) and its message-valued children (each with probability 1/2, or all of them) 1-3 unknown fields
+func addUnknown(g *vgen, m protoreflect.Message, depth int, all bool) {
+	md := m.Descriptor()
+	inExtRange := func(n protoreflect.FieldNumber) bool { return md.ExtensionRanges().Has(n) }
+	var u []byte
+	for k := 1 + g.r.Intn(3); k > 0; k-- {
+		for {
+			c := g.unknownField(md)
+			num, _, _ := protowire.ConsumeTag(c)
+			if !inExtRange(num) {
+				u = append(u, c...)
+				break
+			}
+		}
+	}
+	m.SetUnknown(u)
+	if depth <= 0 {
+		return
+	}
+	m.Range(func(fd protoreflect.FieldDescriptor, v protoreflect.Value) bool {
+		if fd.IsExtension() {
+			return true
+		}
+		switch {
+		case fd.IsMap() && fd.MapValue().Kind() == protoreflect.MessageKind:
+			v.Map().Range(func(_ protoreflect.MapKey, mv protoreflect.Value) bool {
+				if all || g.r.Intn(2) == 0 {
+					addUnknown(g, mv.Message(), depth-1, all)
+				}
+				return true
+			})
+		case fd.IsList() && fd.Kind() == protoreflect.MessageKind:
+			for i := 0; i < v.List().Len(); i++ {
+				if all || g.r.Intn(2) == 0 {
+					addUnknown(g, v.List().Get(i).Message(), depth-1, all)
+				}
+			}
+		case !fd.IsMap() && !fd.IsList() && fd.Kind() == protoreflect.MessageKind:
+			if all || g.r.Intn(2) == 0 {
+				addUnknown(g, v.Message(), depth-1, all)
+			}
 		}
 		return true
 	})
